@@ -5,13 +5,15 @@ Part 1 (scheduler): scripted cooperative tasks (sleep d / bare Pending, optional
 interpreted by generic `async fn`s in the Rust harness on a real `sc62015_core::AsyncDriver`; `run_for` is called
 with a list of budgets, then with a huge budget until everything finished.  A small space is enumerated
 completely; Hypothesis explores beyond it (up to 4 tasks, 6 steps, late spawns, huge values, zero budgets,
-non-zero start clock); "long" cases have chains of thousands of steps; "multi" cases keep 2-3 drivers alive on
-one thread and interleave their run_for calls (plus block_on interludes), each driver must behave as it does
-alone.  Verdicts: vp_harness/c18_sched.py.
+non-zero start clock); "long" cases have chains of thousands of steps; "dur" cases sweep the sleep duration
+(every value 0..200, every power-of-two neighbourhood); "multi" cases keep 2-3 drivers alive on one thread and
+interleave their run_for calls (plus block_on interludes whose futures sleep and emit events), each driver must
+behave as it does alone.  Verdicts: vp_harness/c18_sched.py.
 
 Part 2 (CPU): generated machine images (templates + random valid encodings, timers, interrupt handler) are run
 on two identical `CoreRuntime`s, one through `AsyncRuntimeRunner::run_instructions` with a slice size, one
-through `CoreRuntime::step`; everything observable is compared.  Verdicts: vp_harness/c18_prog.py.
+through `CoreRuntime::step`; everything observable is compared; block_on of an event-emitting future may run on
+the thread before a call.  Verdicts: vp_harness/c18_prog.py.
 """
 
 from __future__ import annotations
@@ -38,17 +40,27 @@ RULE = ("scheduler: task sets x budget partitions; complete enumeration of {1-2 
         "{1,2,3,5,13,100}); plus Hypothesis-generated cases (1-4 tasks, 0-6 steps, bare-Pending steps, emit on first "
         "poll, late spawns, budgets incl. 0 and 2^40+, start clock up to 2^62); long scripts (compact [d,ev,rep] ops, "
         "chains of 7..5000 (thorough ..100000) equal steps around powers of two/ten, systematic family + random mixes); "
+        "duration sweep: every sleep duration 0..200 and 2^k-1,2^k,2^k+1 (k<=16, thorough k<=40) in systematic shapes "
+        "(start-clock alignments, budgets cut at the wake-up, two tasks meeting at one cycle, neighbours side by side) "
+        "plus boundary-weighted random scripts; "
         "multi cases: 2-3 such drivers alive on one thread, run_for calls interleaved in a generated order with "
-        "block_on interludes, drivers created up front or lazily, each compared with itself run alone.  "
+        "block_on interludes (futures that sleep and emit events, in completing or non-completing polls), drivers "
+        "created up front or lazily, each compared with itself run alone.  "
         "CPU: generated images (templates, random encodings, optional parking construct: self-jump / conditional "
         "self-jump / endless short loop) x slice sizes "
-        "{1,2,3,7,10000,default,...} x instruction-count lists x warm-up.  Non-trivial (scheduler) = >= 2 tasks "
+        "{1,2,3,7,10000,default,...} x instruction-count lists x warm-up x optional block_on interlude (future emitting "
+        "User(1)) before a call.  Non-trivial (scheduler) = >= 2 tasks "
         "resumed at one cycle, or one task's resumptions spread over >= 2 run_for calls, or an event emitted at the "
         "last cycle of a budget window; non-trivial (CPU) = >= 2 instructions executed and a register other than PC, "
         "internal or external memory changed; non-trivial (multi) = >= 2 drivers resumed tasks and some driver was "
         "stepped again after another one ran.  distinct = hash of the full case.")
 
 TAIL_BUDGET = 2 ** 63
+# Sleep durations are a generated dimension of their own: every value 0..200 and the neighbourhood of every power
+# of two (the places where a queue organised in buckets / wheels / levels changes its mind) occur in every run.
+HOT_D = tuple(sorted({2 ** k + o for k in range(1, 17) for o in (-1, 0, 1)}))
+HOT_D_THOROUGH = tuple(sorted(set(HOT_D) | {2 ** k + o for k in range(17, 41) for o in (-1, 0, 1)}))
+HOT_CLOCK = (None, 0, 0, 1, 7, 63, 64, 65, 4095, 2 ** 16 - 1, 2 ** 32 + 5)
 Q_D, Q_B = (0, 1, 2, 3), (1, 2, 3, 100)
 T_D, T_B = (0, 1, 2, 3, 5, 8), (1, 2, 3, 5, 13, 100)
 
@@ -64,6 +76,12 @@ ASSUMPTIONS = [
     "a driver's behaviour is a function of its own tasks, clock and run_for calls only: other AsyncDrivers or "
     "block_on running on the same thread between its calls are not inputs of any of its tasks, so every verdict "
     "must hold for each driver of an interleaved group and its observation must equal the stand-alone run",
+    "events emitted by a future that runs under block_on are not events of any AsyncDriver task: no driver may return "
+    "them and AsyncRuntimeRunner must not react to them (block_on itself discards them after every non-completing "
+    "poll -- the maintainers' intent); where they do leak (completing poll, known finding) the fingerprint carries "
+    "the kind of foreign future in its `where`",
+    "every harness case starts from an empty event slot (a scratch AsyncDriver polls one empty task): what an earlier "
+    "case left in the thread-locals is not an input of the next case",
     "the statement puts no bound on the length of a sleep sequence or on the number of wake-ups served within "
     "one cycle: sleep_cycles(0) must stay in its cycle however long the chain is",
     "a bare Poll::Pending (no sleep registered) is expected one cycle later, as the maintainers' "
@@ -254,7 +272,8 @@ def _case_strategy(max_tasks: int = 4, max_steps: int = 6, max_budgets: int = 8)
     from hypothesis import strategies as st
 
     big = st.sampled_from([2 ** 32, 2 ** 40 + 1, 2 ** 56, 2 ** 58])  # clock0 + all sleeps + tail budget < 2^64
-    dur = st.one_of(st.sampled_from(T_D), st.sampled_from(T_D), st.integers(0, 20), big, st.just(SC.YIELD))
+    dur = st.one_of(st.sampled_from(T_D), st.sampled_from(T_D), st.integers(0, 20), big, st.just(SC.YIELD),
+                    st.integers(0, 200), st.sampled_from(HOT_D))
     step = st.tuples(dur, st.booleans())
     bud = st.one_of(st.sampled_from((0,) + T_B), st.sampled_from(T_B), st.integers(0, 40), big)
     clock = st.one_of(st.just(0), st.just(0), st.none(), st.sampled_from([1, 7, 2 ** 32 + 5, 2 ** 62]))
@@ -308,13 +327,30 @@ def _multi_shard(task: Tuple[int, int, int]) -> Report:
     rep = Report()
     sub = _case_strategy(max_tasks=3, max_steps=4, max_budgets=5)
 
+    # block_on of a future that also emits events: ids disjoint from every task's ids (>= 100), 1 = the id
+    # AsyncRuntimeRunner uses internally
+    bo_ev = st.one_of(st.none(), st.sampled_from((1, 2, 7, 900, 901)))
+    bo_op = st.tuples(st.sampled_from((0, 1, 2, 3, 9, SC.YIELD)), bo_ev)
+
+    @st.composite
+    def bo_script(draw: Any) -> Dict[str, Any]:
+        e: Dict[str, Any] = {"ops": [list(o) for o in draw(st.lists(bo_op, min_size=0, max_size=3))]}
+        se = draw(bo_ev)
+        if se is not None:
+            e["se"] = se
+        return e
+
     @st.composite
     def multis(draw: Any) -> Dict[str, Any]:
         n = draw(st.sampled_from((2, 2, 2, 3)))
         drivers = [draw(sub) for _ in range(n)]
         entry = st.one_of(st.integers(0, n - 1), st.integers(0, n - 1), st.integers(0, n - 1),
-                          st.lists(st.sampled_from((0, 1, 2, 3, 9)), min_size=0, max_size=3))
+                          st.integers(0, n - 1),
+                          st.lists(st.sampled_from((0, 1, 2, 3, 9)), min_size=0, max_size=3), bo_script())
         order = draw(st.lists(entry, min_size=0, max_size=12))
+        # one decision per case: 3 of 4 cases have no emission in a completing poll of a block_on future
+        if draw(st.integers(0, 3)) != 0:
+            order = [SC.strip_final_emit(e) if isinstance(e, dict) else e for e in order]
         return {"kind": "multi", "drivers": drivers, "order": order,
                 "create": draw(st.sampled_from(("upfront", "upfront", "lazy")))}
 
@@ -330,7 +366,8 @@ def _multi_shard(task: Tuple[int, int, int]) -> Report:
     return rep
 
 
-INTERLEAVED = " [another scheduler was driven on the same thread between the run_for calls]"
+INTERLEAVED = SC.BO_NONE
+INTERLEAVED_ANY = (SC.BO_NONE, SC.BO_NONFINAL, SC.BO_FINAL)
 
 
 def eval_multi(case: Dict[str, Any]) -> Tuple[List[Violation], List[str], bool]:
@@ -342,8 +379,14 @@ def eval_multi(case: Dict[str, Any]) -> Tuple[List[Violation], List[str], bool]:
     mo = resp["results"][0]
     out: List[Violation] = []
     labels = [f"drivers:{len(case['drivers'])}", "create:" + case.get("create", "upfront")]
+    # what else ran on the thread: the suffix separates "a foreign future's events reach a driver" (by the poll
+    # in which they were emitted) from plain interleaving
+    flavour = SC.interlude_flavour(case["order"])
+    suffix = SC.interlude_suffix(case["order"])
+    if flavour:
+        labels.append("block_on-emits:" + flavour)
     if not mo.get("ok"):
-        out.append(Violation("crash", "AsyncDriver" + INTERLEAVED, "panic or error inside the driver", case,
+        out.append(Violation("crash", "AsyncDriver" + suffix, "panic or error inside the driver", case,
                              str(mo.get("panic") or mo.get("error"))[:300]))
         return out, labels + ["crash"], False
     solo = _rust_sched(case["drivers"])
@@ -355,13 +398,13 @@ def eval_multi(case: Dict[str, Any]) -> Tuple[List[Violation], List[str], bool]:
         fresh = [v for v in vs_int if v.key() not in solo_keys]
         # one root cause usually trips several verdicts; the first one (check order: first-poll, wake-exact,
         # time-monotonic, budget-window, ...) is the most fundamental
-        for v in fresh[:0 if any(INTERLEAVED in x.where for x in out) else 1]:
-            out.append(Violation(v.subcheck, v.where + INTERLEAVED, v.symptom, case, f"driver {i}: " + v.detail))
+        for v in fresh[:0 if any(x.where.endswith(INTERLEAVED_ANY) for x in out) else 1]:
+            out.append(Violation(v.subcheck, v.where + suffix, v.symptom, case, f"driver {i}: " + v.detail))
         if not fresh and not vs_solo:
             a, b = mo["drivers"][i], solo[i]
             diff = [k for k in ("log", "results", "budgets", "spawn_clock", "done") if a.get(k) != b.get(k)]
             if diff:
-                out.append(Violation("isolation", "AsyncDriver" + INTERLEAVED,
+                out.append(Violation("isolation", "AsyncDriver" + suffix,
                                      "a driver behaves differently from the same driver run alone: " + ",".join(diff),
                                      case, f"driver {i}: interleaved {str({k: a.get(k) for k in diff})[:300]} alone "
                                            f"{str({k: b.get(k) for k in diff})[:300]}"))
@@ -401,6 +444,13 @@ def _long_cases(tier: str, seed: int, n_random: int) -> Iterator[Tuple[str, Dict
                     ops = [[[d, 0, rep_n], [1 + i, 1, 1]] for i in range(ntasks)]
                     tasks = _assign_events_rep(ops)
                     yield "long:systematic", _mk_case(tasks, list(budgets))
+    # chains of equal sleeps around the power-of-two durations (every wake-up lands one "bucket" further)
+    for rep_n in (7, 100, 1000):
+        for d in (63, 64, 65, 255, 256, 257):
+            for ntasks in (1, 2):
+                for budgets in ([], [d], [1, 3 * d]):
+                    ops = [[[d + i, 0, rep_n], [1 + i, 1, 1]] for i in range(ntasks)]
+                    yield "long:systematic", _mk_case(_assign_events_rep(ops), list(budgets))
     for k in range(n_random):
         st = Stream(seed, k, 0x10C18)
         ntasks = 1 + st.below(3)
@@ -443,6 +493,78 @@ def _long_shard(task: Tuple[int, int, str, int, int]) -> Report:
             continue
         vs, labels, nt = eval_sched(case)
         _record(rep, case, vs, labels, nt, 97, (fam,))
+    return rep
+
+
+# ------------------------------------------------------------------------------------------------
+# scheduler: the duration dimension (every small value, every power-of-two neighbourhood)
+# ------------------------------------------------------------------------------------------------
+# The enumerated space uses a palette of <= 6 durations and Hypothesis mostly small ones; the statement says
+# "arbitrary cycle counts".  The reference scheduler is exact for every duration, so the whole verdict set applies.
+
+def dur_values(tier: str) -> List[int]:
+    return sorted(set(range(0, 201)) | set(HOT_D if tier == "quick" else HOT_D_THOROUGH))
+
+
+def _dur_cases(tier: str, seed: int, n_random: int) -> Iterator[Tuple[str, Dict[str, Any]]]:
+    vals = dur_values(tier)
+    hot = HOT_D if tier == "quick" else HOT_D_THOROUGH
+    for n, d in enumerate(vals):
+        # one sleeper, every start-clock alignment class
+        for clock0 in (None, 1, 63, 64, 2 ** 32 + 5):
+            yield "dur:systematic", _mk_case(_assign_events([[[d, 1]]]), [], clock0)
+        # the same duration twice in a row, budgets cut at / next to the wake-up
+        for budgets in ([d], [d + 1], [1, d]):
+            yield "dur:systematic", _mk_case(_assign_events([[[d, 0], [d, 1]]]), budgets, HOT_CLOCK[n % len(HOT_CLOCK)])
+        # two tasks reach the same cycle, one by a long sleep, one by two short ones (both request orders)
+        if d >= 1:
+            yield "dur:systematic", _mk_case(_assign_events([[[d, 1]], [[d - 1, 0], [1, 1]]]), [])
+            yield "dur:systematic", _mk_case(_assign_events([[[1, 0], [d, 1]], [[d + 1, 1]]]), [d])
+        # neighbours side by side
+        yield "dur:systematic", _mk_case(_assign_events([[[d, 1]], [[d + 1, 1]], [[max(d - 1, 0), 1]]]), [])
+    for k in range(n_random):
+        st = Stream(seed, k, 0xD0C18)
+
+        def one_d() -> int:
+            r = st.below(10)
+            if r < 5:
+                return st.choice(hot)
+            if r < 8:
+                return st.below(201)
+            if r < 9:
+                return max(0, st.choice(hot) + st.below(7) - 3)
+            return st.choice((0, 0, 1, 2, 3, SC.YIELD))
+
+        ntasks = 1 + st.below(3)
+        ops = [[[one_d(), 1 if st.chance(1, 3) else 0] for _ in range(1 + st.below(5))] for _ in range(ntasks)]
+        flat = [o[0] for t in ops for o in t if o[0] >= 0] or [1]
+        nb = st.below(4)
+        budgets = []
+        for _ in range(nb):
+            b = st.choice(flat)
+            budgets.append(st.choice((1, 2, 3, 64, 100, 2 ** 20, b, b + 1, max(b - 1, 0), 2 * b)))
+        se = [st.chance(1, 6) for _ in range(ntasks)]
+        at = [st.below(nb + 1) if (nb and st.chance(1, 4)) else 0 for _ in range(ntasks)]
+        yield "dur:random", _mk_case(_assign_events(ops, se, at), budgets, st.choice(HOT_CLOCK))
+
+
+def _dur_shard(task: Tuple[int, int, str, int, int]) -> Report:
+    shard, nshards, tier, seed, n_random = task
+    rep = Report()
+    seen = set()
+    for n, (fam, case) in enumerate(_dur_cases(tier, seed, n_random)):
+        if n % nshards != shard:
+            continue
+        vs, labels, nt = eval_sched(case)
+        ds = {o[0] for t in case["tasks"] for o in t["ops"]}
+        seen |= ds
+        extra = [fam]
+        if any(d in HOT_D_THOROUGH for d in ds if d > 3):
+            extra.append("dur:power-of-two-neighbourhood")
+        if any(20 < d <= 200 for d in ds):
+            extra.append("dur:21..200")
+        _record(rep, case, vs, labels, nt, 397, tuple(extra))
+    rep.extra["durations_seen"] = sorted(d for d in seen if d >= 0)
     return rep
 
 
@@ -503,6 +625,8 @@ def _dispatch(task: Tuple[Any, ...]) -> Report:
             return _multi_shard(task[1:])
         if kind == "long":
             return _long_shard(task[1:])
+        if kind == "dur":
+            return _dur_shard(task[1:])
         return _cpu_shard(task[1:])
     except _Hang as exc:
         # The shard's partial results are dropped; run() turns this into exit 2 unless another shard produced a
@@ -531,10 +655,21 @@ def run(ctx: Ctx) -> Report:
         tasks.append(("long", i, 16, ctx.tier, base, ctx.pick(480, 1600)))
     for i in range(16):
         tasks.append(("multi", i, base, ctx.pick(600, 4000)))
+    for i in range(16):
+        tasks.append(("dur", i, 16, ctx.tier, base, ctx.pick(2400, 16000)))
     for i in range(n_enum):
         tasks.append(("enum", i, n_enum, ctx.tier))
     reports = ctx.pmap(_dispatch, tasks)
+    seen = set()
+    for r in reports:
+        seen.update(r.extra.pop("durations_seen", []))
     rep = ctx.merge_reports(reports)
+    rep.extra.pop("durations_seen", None)
+    missing = [d for d in dur_values(ctx.tier) if d not in seen]
+    if missing and not rep.extra.get("hangs"):
+        raise HarnessError(f"c18: duration family did not cover {missing[:10]}")
+    rep.extra["durations_covered"] = (f"every sleep duration 0..200 and 2^k-1, 2^k, 2^k+1 for k <= "
+                                      f"{16 if ctx.quick else 40}: {len(dur_values(ctx.tier))} values, each in >= 9 systematic cases")
     if rep.extra.get("hangs"):
         from .. import findings as F
         entries = F.load_findings(PROPERTY)
@@ -644,6 +779,12 @@ def _multi_candidates(case: Dict[str, Any]) -> Iterator[Dict[str, Any]]:
         c = copy.deepcopy(case)
         c["create"] = "upfront"
         yield c
+    for j, e in enumerate(case["order"]):
+        if isinstance(e, dict):
+            for sub in _interlude_candidates(e):
+                c = copy.deepcopy(case)
+                c["order"][j] = sub
+                yield c
     for i in range(n):
         for sub in _sched_candidates(case["drivers"][i]):
             c = copy.deepcopy(case)
@@ -651,12 +792,50 @@ def _multi_candidates(case: Dict[str, Any]) -> Iterator[Dict[str, Any]]:
             yield c
 
 
+def _interlude_candidates(e: Dict[str, Any]) -> Iterator[Dict[str, Any]]:
+    ops = e.get("ops") or []
+    for j in range(len(ops)):
+        c = copy.deepcopy(e)
+        del c["ops"][j]
+        yield c
+    if e.get("se") is not None:
+        c = copy.deepcopy(e)
+        c.pop("se")
+        yield c
+    for j, o in enumerate(ops):
+        if o[1] is not None:
+            c = copy.deepcopy(e)
+            c["ops"][j][1] = None
+            yield c
+        if o[0] not in (0, 1):
+            c = copy.deepcopy(e)
+            c["ops"][j][0] = 1
+            yield c
+
+
 def _cpu_candidates(case: Dict[str, Any]) -> Iterator[Dict[str, Any]]:
+    inter = case.get("interludes")
     if len(case["calls"]) > 1:
         for i in range(len(case["calls"])):
             c = copy.deepcopy(case)
             del c["calls"][i]
+            if inter:
+                del c["interludes"][i]
             yield c
+    if inter:
+        c = copy.deepcopy(case)
+        c.pop("interludes")
+        yield c
+        for i, e in enumerate(inter):
+            if e is None:
+                continue
+            c = copy.deepcopy(case)
+            c["interludes"][i] = None
+            yield c
+            for sub in _interlude_candidates(e):
+                c = copy.deepcopy(case)
+                c["interludes"][i] = sub
+                yield c
     for i, n in enumerate(case["calls"]):
         for nn in (0, 1, 2, n // 2, n - 1):
             if 0 <= nn < n:
